@@ -25,6 +25,7 @@ from dsim.core import Trace
 from dsim.threads import Baton
 
 NAMES = ["a", "b", "box"]
+CV_DEFAULT = -7
 UNSET = "<unset>"
 
 
@@ -71,21 +72,10 @@ class Engine:
         from werkzeug.local import LocalManager
         from werkzeug.local import LocalStack
 
-        self.L = Local()
-        self.S = LocalStack()
         self.CV: contextvars.ContextVar = contextvars.ContextVar("c18.cv")
-        # the documented ways to tell a manager what it manages: a list, a single local, or `.locals` filled later
-        if manager_form == "single_then_append":
-            self.manager = LocalManager(self.L)
-            self.manager.locals.append(self.S)
-        elif manager_form in ("append_later", "append_after_middleware"):
-            self.manager = LocalManager()
-            self.manager.locals.append(self.L)
-            if manager_form == "append_later":
-                self.manager.locals.append(self.S)
-        else:
-            self.manager = LocalManager([self.L, self.S])
-        self.proxies: list[tuple[int, str, object]] = []
+        self.CVD: contextvars.ContextVar = contextvars.ContextVar("c18.cvd", default=CV_DEFAULT)  # set together with CV
+        self.manager_form = manager_form
+        self.L = self.S = self.manager = self.mw = None
         self.boxes: dict[int, Box] = {}
         self.model: dict[int, CtxModel] = {}
         self.out = out
@@ -94,20 +84,54 @@ class Engine:
         self.pre = f"C18/{scn}"
         self.static_boxes = mode in ("threads_preempt", "asyncio")
         self.stop = False
-        L, S = self.L, self.S
+        self.new_locals()
+        self.pending: dict[int, object] = {}  # context -> response iterable of the request in flight there
+
+    def new_locals(self) -> None:
+        """(Re)create the namespace, the stack, their manager and the wrapped application.  Everything that refers to the
+        previous objects is dropped first, so they are freed before their successors are allocated."""
+        from werkzeug.local import Local
+        from werkzeug.local import LocalManager
+        from werkzeug.local import LocalStack
+
+        self.proxies = []
+        self.iters: dict[int, tuple] = {}
+        old = (id(self.L) if self.L is not None else None, id(self.S) if self.S is not None else None)
+        self.L = self.S = self.manager = self.mw = None
+        # allocator placement is part of the schedule: prefer a successor that lands where its predecessor was (an
+        # object identity that is used a second time), as long-running processes eventually produce
+        cands = [Local() for _ in range(6)]
+        self.L = next((x for x in cands if id(x) == old[0]), cands[0])
+        del cands
+        cands = [LocalStack() for _ in range(6)]
+        self.S = next((x for x in cands if id(x) == old[1]), cands[0])
+        del cands
+        if old[0] is not None and (id(self.L), id(self.S)) == old:
+            self.out.probe("successor_reuses_predecessor_identity")
+        mf = self.manager_form
+        # the documented ways to tell a manager what it manages: a list, a single local, or `.locals` filled later
+        if mf == "single_then_append":
+            self.manager = LocalManager(self.L)
+            self.manager.locals.append(self.S)
+        elif mf in ("append_later", "append_after_middleware"):
+            self.manager = LocalManager()
+            self.manager.locals.append(self.L)
+            if mf == "append_later":
+                self.manager.locals.append(self.S)
+        else:
+            self.manager = LocalManager([self.L, self.S])
 
         def app(environ, start_response):
             # data stored during a request is released when the server closes the response - in that context only
-            setattr(L, environ["sim.name"], environ["sim.value"])
-            S.push(environ["sim.value"])
+            setattr(self.L, environ["sim.name"], environ["sim.value"])
+            self.S.push(environ["sim.value"])
             start_response("200 OK", [])
             return [b"a", b"b", b"c"]
 
         # one wrapped application serves every request, as in a deployed server
         self.mw = self.manager.make_middleware(app)
-        if manager_form == "append_after_middleware":
+        if mf == "append_after_middleware":
             self.manager.locals.append(self.S)
-        self.pending: dict[int, object] = {}  # context -> response iterable of the request in flight there
 
     # -- helpers -----------------------------------------------------------
     def vio(self, what: str, msg: str) -> None:
@@ -263,11 +287,32 @@ class Engine:
                 self.out.fault("context_release")
                 if self.pending:
                     self.out.probe("request_closed_while_another_in_flight")
+            elif kind == "iter_begin":
+                # an iterator obtained now shows the namespace as it is now, whatever is stored afterwards
+                self.iters[c] = (iter(L), dict(m.attrs))
+            elif kind == "iter_end":
+                if c not in self.iters:
+                    return
+                it, snap = self.iters.pop(c)
+                res = {k: self.val(v) for k, v in it}
+                if res != snap:
+                    self.vio("read-returns-wrong-value/op=iter-held", f"context {c}: an iterator taken when the namespace was {snap} produced {res} after later operations")
+                self.out.probe("held_iterator_consumed")
+            elif kind == "fresh_locals":
+                if self.pending or self.static_boxes:
+                    return
+                L = S = None  # this frame must not keep the old objects alive either
+                self.new_locals()
+                for mm in self.model.values():
+                    mm.attrs = {}
+                    mm.stack = []
+                self.out.probe("locals_recreated")
             elif kind == "cvset":
+                self.CVD.set(int(a2))
                 self.CV.set(int(a2))
                 m.cv = int(a2)
             elif kind == "mkproxy":
-                pk = a1 % 6 if isinstance(a1, int) else 0
+                pk = a1 % 7 if isinstance(a1, int) else 0
                 nm = NAMES[a2 % len(NAMES)] if isinstance(a2, int) else "a"
                 if pk == 0:
                     p = L(nm)
@@ -277,6 +322,8 @@ class Engine:
                     p = S("x")
                 elif pk == 3:
                     p = LocalProxy(self.CV)
+                elif pk == 6:
+                    p = LocalProxy(self.CVD)  # a context variable with a default is never unbound
                 elif pk == 5:
                     p = L(nm + ".x") if a2 % 2 else LocalProxy(L, nm + ".x")  # attribute chain below the namespace
                 else:
@@ -298,6 +345,8 @@ class Engine:
             if nm in m.attrs:
                 return ("bound", m.attrs[nm])
             return ("unbound",) if pk == 0 else ("callable-raises",)
+        if pk == 6:
+            return ("bound", m.cv if m.cv is not UNSET else CV_DEFAULT)
         if pk == 5:
             v = m.attrs.get(nm, UNSET)
             return ("bound-attr", v[1]) if isinstance(v, tuple) else ("unbound",)
@@ -315,7 +364,7 @@ class Engine:
     def proxy_op(self, c: int, m: CtxModel, kind: str, prox, a2) -> None:
         pk, nm, p = prox
         exp = self.expected_binding(m, pk, nm)
-        tag = f"proxy-kind={['local-attr', 'stack-top', 'stack-top-attr', 'contextvar', 'callable', 'local-attr-chain'][pk]}"
+        tag = f"proxy-kind={['local-attr', 'stack-top', 'stack-top-attr', 'contextvar', 'callable', 'local-attr-chain', 'contextvar-with-default'][pk]}"
         if kind == "pmut":
             if self.static_boxes:
                 return
@@ -379,7 +428,7 @@ class Engine:
             return type(e).__name__
 
 
-OPKINDS = ["set", "set", "set", "setbox", "wsgi", "wsgi_begin", "wsgi_end", "get", "del", "iter", "push", "push", "pushbox", "pop", "top", "release", "cvset", "mkproxy", "pread", "pread", "pread", "pmut", "spawn"]
+OPKINDS = ["set", "set", "set", "setbox", "wsgi", "wsgi_begin", "wsgi_end", "iter_begin", "iter_end", "get", "del", "iter", "push", "push", "pushbox", "pop", "top", "release", "cvset", "mkproxy", "pread", "pread", "pread", "pmut", "spawn"]
 
 
 class LocalsIsolation(Scenario):
@@ -418,7 +467,7 @@ class LocalsIsolation(Scenario):
             elif k in ("setbox", "pushbox"):
                 ops.append([c, k, rng.randrange(3), rng.randrange(4)])
             elif k == "mkproxy":
-                ops.append([c, k, rng.randrange(6), rng.randrange(3)])
+                ops.append([c, k, rng.randrange(7), rng.randrange(3)])
             elif k in ("pread",):
                 ops.append([c, k, rng.randrange(8), 0])
             else:
@@ -434,11 +483,14 @@ class LocalsIsolation(Scenario):
                 at = sorted(rng.randrange(min(first, len(ops)), len(ops) + 1) for _ in pat)
             for off, (i, o) in enumerate(zip(at, pat)):
                 ops.insert(i + off, o)
+        if mode in ("ctxrun", "threads") and rng.random() < 0.1:
+            # the application throws its locals away and makes new ones while the contexts live on
+            ops.insert(rng.randrange(1, len(ops) + 1), [rng.randrange(nctx if False else roots), "fresh_locals", 0, 0])
         if mode == "asyncio":
             for _ in range(rng.choice([0, 0, 1, 2])):
                 ops.insert(rng.randrange(len(ops) + 1), [rng.randrange(nctx), rng.choice(["sleep", "sleep", "cancel"]), rng.randrange(nctx), rng.choice([0, 1, 30])])
         # proxies usually exist from the start (module-level proxies)
-        pre = [[0, "mkproxy", pk, rng.randrange(3)] for pk in rng.sample(range(6), rng.choice([0, 2, 3, 6]))]
+        pre = [[0, "mkproxy", pk, rng.randrange(3)] for pk in rng.sample(range(7), rng.choice([0, 2, 3, 7]))]
         return {"manager_form": rng.choice(["list", "list", "single_then_append", "append_later", "append_after_middleware"]), "mode": mode, "roots": roots, "ops": pre + ops, "tape": [rng.choice([0, 0, 1, 1, 2, 3]) for _ in range(rng.choice([0, 30, 120, 400]))]}
 
     # ------------------------------------------------------------------
